@@ -28,27 +28,29 @@ type inputRec struct {
 }
 
 type pathExec struct {
-	h         *Harness
-	prefix    []dec
-	taken     []dec
-	inputs    []inputRec
-	unwind    int
-	covers    map[string]bool
-	notes     []string
-	known     []string
-	verbose   bool
-	recovered int
-	tainted   bool
-	nsym      int
-	symOrder  bool
-	frozen    map[*value]string
-	lockDepth int
-	asserted  int
-	pc        []*Term
-	vinfo     map[*Term]*varInfo
-	vecs      map[*Term]*vec
-	domForced int
-	domBoth   int
+	h                *Harness
+	prefix           []dec
+	taken            []dec
+	inputs           []inputRec
+	unwind           int
+	covers           map[string]bool
+	notes            []string
+	known            []string
+	verbose          bool
+	recovered        int
+	tainted          bool
+	nsym             int
+	symOrder         bool
+	frozen           map[*value]string
+	lockDepth        int
+	asserted         int
+	pc               []*Term
+	vinfo            map[*Term]*varInfo
+	vecs             map[*Term]*vec
+	domForced        int
+	domBoth          int
+	placeholders     map[*Term]int
+	placeholderTerms []*Term
 }
 
 type Failure struct {
